@@ -905,3 +905,45 @@ func cellWrittenByClosure(cell *ssa.Alloc) bool {
 	}
 	return false
 }
+
+// objectConfined: does every store of leaf function fn into heap h go to a field of the object its parameter
+// `param` points to?  Only then is `modifies h@param` applied per object at call sites (the other objects' cells
+// keep their values); otherwise the whole heap is havocked, which is always sound.  Deliberately narrow: fn makes
+// no calls at all, and the store address is a field of the parameter itself.
+func (e *Engine) objectConfined(fn *ssa.Function, h string, param string) bool {
+	if fn == nil || len(fn.Blocks) == 0 {
+		return false
+	}
+	var pv ssa.Value
+	for pi, p := range fn.Params {
+		if p.Name() == param || (param == "recv" && pi == 0 && fn.Signature.Recv() != nil) {
+			pv = p
+		}
+	}
+	if pv == nil {
+		return false
+	}
+	for _, b := range fn.Blocks {
+		for _, in := range b.Instrs {
+			switch x := in.(type) {
+			case ssa.CallInstruction:
+				if _, isBuiltin := x.Common().Value.(*ssa.Builtin); !isBuiltin {
+					return false
+				}
+			case *ssa.MapUpdate, *ssa.Send:
+				return false
+			case *ssa.Store:
+				hs := map[string]bool{}
+				storeHeaps(x.Addr, hs)
+				if !hs[h] {
+					continue
+				}
+				fa, ok := x.Addr.(*ssa.FieldAddr)
+				if !ok || fa.X != pv {
+					return false
+				}
+			}
+		}
+	}
+	return true
+}
